@@ -178,6 +178,45 @@ def make_two(c1):
     return lem
 
 
+BENIGN_MODS = ["platform", "collections", "unittest.mock", "shlex", "builtins"]
+BAD_MODS = ["os", "subprocess", "zqv_pkg", "zqv_pkg.sub", "torch.hub", "posix", "__builtin__"]
+SHADOW_NAMES = ["system", "call", "OrderedDict", "zqv_f", "eval", "Popen"]
+
+
+def make_shadow(order):
+    def lem(mg: int, mb: int, ni: int) -> bool:
+        """
+        pre: 0 <= mg < 5 and 0 <= mb < 7 and 0 <= ni < 6
+        post: _
+        """
+        # the same attribute name resolved from a benign module and from a dangerous / non-stdlib one, in either order:
+        # whatever the rules do per *name* must not hide the dangerous import or its call
+        mg, mb, ni = pin(mg, 0, 4), pin(mb, 0, 6), pin(ni, 0, 5)
+        if is_builtin_family(BAD_MODS[mb]) and not is_builtin_family(BENIGN_MODS[mg]) and SHADOW_NAMES[ni] not in BAD_BUILTINS:
+            if rt.skip("shadowed-builtin"):
+                return True
+        with native():
+            name = SHADOW_NAMES[ni]
+            # resolve (3) x call (4) x fate (3) of the dangerous one are enumerated inside the cell
+            for rk in range(3):
+                for ck in range(4):
+                    for fk in range(3):
+                        good = gadget([0, 1, 0][rk], 0, 0, BENIGN_MODS[mg], name)
+                        bad = gadget([0, 1, 5][rk], 0, [0, 1, 4, 3][ck], BAD_MODS[mb], name)
+                        if good is None or bad is None:
+                            continue
+                        if order == 0:
+                            data = good + b"0" + with_fate(bad, [0, 1, 2][fk]) + b"."
+                        else:
+                            data = with_fate(bad, [1, 2, 5][fk]) + b"0" + good + b"."
+                        if not holds(data):
+                            return False
+            return True
+
+    lem.__name__ = lem.__qualname__ = "shadow_%s_first" % ["benign", "dangerous"][order]
+    return lem
+
+
 Q_MODS_T = [Q_MODS]
 Q_ATTRS_T = [Q_ATTRS]
 
@@ -202,6 +241,11 @@ def lemmas(tier):
         L.append(Lemma("context_%d" % rep, make_context(rep), timeout=300 if q else 1500, dry=[{"ck": 0, "hdr": 2, "pre": 2, "post": 2, "ai": 3, "fk": 1}],
                        doc={"F": ["global %s.%s" % REPS[rep], "protocol header (3)", "benign data before (5) / after (3)", "string argument length in 0,1,31,32,33,64 (the 32-character shortening boundary)",
                                   "call in REDUCE/OBJ/computed", "fate (3)"], "bound": "quick: one 'after' per 'before', 2 fates"}))
+    for order in (0, 1):
+        fn = make_shadow(order)
+        L.append(Lemma(fn.__name__, fn, timeout=400 if q else 1500, dry=[{"mg": 0, "mb": 0, "ni": 0}],
+                       doc={"F": ["solver-partitioned: same attribute name (6) from a benign module (5) and from a dangerous/non-stdlib module (7); %s import first" % ["benign", "dangerous"][order],
+                                  "enumerated inside each cell: resolve (3) x call (4) x fate (3) of the dangerous one"], "bound": "two imports of one name"}))
     for c1 in range(len(CALL)):
         fn = make_two(c1)
         L.append(Lemma(fn.__name__, fn, timeout=400 if q else 2000, dry=[{"r1": 1, "r2": 0, "c2": 1, "f1": 1, "same_arg": True}],
